@@ -507,6 +507,19 @@ func genPersist(forC12 bool) func(t *rapid.T) pcCase {
 			maxSteps = 40
 		}
 		c.Build = rapid.SliceOfN(stepGen, 0, maxSteps).Draw(t, "build")
+		if forC12 {
+			// most streams should carry a protected block: keys set, pushed out of the window by the next
+			// insert, then read often enough for the read buffer to drain (probation -> protected)
+			warm := rapid.SampledFrom([]int{0, 1, 2, 3, 3}).Draw(t, "warm")
+			if warm > 0 {
+				for i := 0; i <= warm; i++ {
+					c.Build = append(c.Build, pcStep{Op: "set", K: i, Cost: 1, TTL: genPcTTL(t)})
+				}
+				for i := 0; i < warm; i++ {
+					c.Build = append(c.Build, pcStep{Op: "get", K: i, N: 17})
+				}
+			}
+		}
 		c.EndWithSet = rapid.IntRange(0, 3).Draw(t, "endWithSet") != 0
 		if !forC12 && c.Type == "bytes" && rapid.IntRange(0, 12).Draw(t, "bigClass") == 0 {
 			c.Big = rapid.IntRange(9, 14).Draw(t, "big")
@@ -939,6 +952,57 @@ func execC12[K comparable, V any](c pcCase, cd pcCodec[K, V], x *verifkit.Ctx) (
 			}
 		}
 	}
+	// 5. whole blocks rearranged. A gob type definition precedes the first value of its type, so a
+	// block moved in front of its definition dies in the decoder (class 4 above mostly ends there).
+	// Hoisting every definition to the front, in order, gives an equivalent stream in which the
+	// value messages (metadata, window, protected, probation, end) can be dropped and permuted
+	// freely: every ordered selection of them is loaded and judged.
+	{
+		var defs, vals []pcFrame
+		for _, f := range frames {
+			if f.typedef {
+				defs = append(defs, f)
+			} else {
+				vals = append(vals, f)
+			}
+		}
+		var head []byte
+		for _, f := range defs {
+			head = append(head, stream[f.start:f.end]...)
+		}
+		if len(vals) <= 6 {
+			arrangements := int64(0)
+			var rec func(used uint, order []int) *verifkit.Failure
+			rec = func(used uint, order []int) *verifkit.Failure {
+				if len(order) > 0 {
+					arr := append([]byte{}, head...)
+					for _, vi := range order {
+						arr = append(arr, stream[vals[vi].start:vals[vi].end]...)
+					}
+					arrangements++
+					if f := judge(fmt.Sprintf("definitions hoisted, blocks arranged as %v (of %d)", order, len(vals)), arr, 0, false); f != nil {
+						f.Sig += "/blocks-rearranged"
+						return f
+					}
+				}
+				for vi := range vals {
+					if used&(1<<uint(vi)) != 0 {
+						continue
+					}
+					if f := rec(used|1<<uint(vi), append(order, vi)); f != nil {
+						return f
+					}
+				}
+				return nil
+			}
+			if f := rec(0, nil); f != nil {
+				return f
+			}
+			verifkit.AddCount("c12_block_arrangements", arrangements)
+			x.Class("blocks-rearranged")
+			x.ClassIf(src.policy.slru.protected.Len() > 0, "protected-block-present")
+		}
+	}
 	verifkit.AddCount("c12_faulted_loads", loads)
 	verifkit.AddCount("c12_streams", 1)
 	verifkit.AddCount("c12_stream_bytes", int64(len(stream)))
@@ -975,7 +1039,7 @@ func TestVerifC12(t *testing.T) {
 	vkOwnPipeline()
 	verifkit.Run(t, verifkit.Spec[pcCase]{
 		ID: "C12", Gen: genPersist(true), Exec: dispatchC12,
-		Rule:        "C12: rapid draws a cache (types, MaxSize 1..30, saver uptime 0..30 days, build script with TTLs, elapsed time before the load) and 4..12 multi-byte damages; for each generated stream the executor enumerates EVERY truncation offset, EVERY single-bit flip and the substitutions {0x00,0xFF,+1} at EVERY offset (streams <= 4 KiB; sampled plus all header/type-descriptor offsets otherwise), pairs of faults (each single header/descriptor fault that was tolerated silently combined with two bit flips at each of ~200 positions spread over the stream; up to 24 such single faults per stream), the drawn multi-byte damages, and the duplication, removal and pairwise swap of whole gob messages; each damaged stream is loaded under the saved version and under another version; a stream is non-trivial when faults hit block header fields or gob type descriptors, or truncations fell inside the last message (always true for enumerated streams; distinct = distinct streams)",
+		Rule:        "C12: rapid draws a cache (types, MaxSize 1..30, saver uptime 0..30 days, build script with TTLs, elapsed time before the load) and 4..12 multi-byte damages; for each generated stream the executor enumerates EVERY truncation offset, EVERY single-bit flip and the substitutions {0x00,0xFF,+1} at EVERY offset (streams <= 4 KiB; sampled plus all header/type-descriptor offsets otherwise), pairs of faults (each single header/descriptor fault that was tolerated silently combined with two bit flips at each of ~200 positions spread over the stream; up to 24 such single faults per stream), the drawn multi-byte damages, the duplication, removal and pairwise swap of whole gob messages, and - with the gob type definitions hoisted to the front - every ordered selection of the block messages (blocks dropped and permuted; most streams carry a protected block); each damaged stream is loaded under the saved version and under another version; a stream is non-trivial when faults hit block header fields or gob type descriptors, or truncations fell inside the last message (always true for enumerated streams; distinct = distinct streams)",
 		Assumptions: append([]string{"gob's length-prefixed framing is parsed by the harness to locate messages and the end of the metadata message"}, pcAssumptions...),
 	})
 }
